@@ -419,7 +419,8 @@ MALFORMED = ["job-typo", "job-ragged", "job-machine-out-of-range", "job-negative
              "tool-unknown", "tool-missing-job", "setup-non-square", "logistics-no-amount", "logistics-unknown-type",
              "logistics-negative-amount", "buffer-unknown-type", "buffer-negative-capacity", "buffer-unknown-role",
              "buffer-no-output-role", "outage-unknown-type", "outage-missing-duration", "init-agv-unknown-location",
-             "init-job-unknown-location", "no-specification", "no-instance-config"]
+             "init-job-unknown-location", "no-specification", "no-instance-config",
+             "init-store-foreign-job", "init-store-unknown-job"]
 
 
 def hesitant_stream(seed):
@@ -512,7 +513,7 @@ def gen_malformed(seed, kind=None):
     rnd = random.Random(seed)
     kind = kind or rnd.choice(MALFORMED)
     need = {"travel": "transport", "logistics": "transport", "tool": "setup", "setup": "setup", "buffer": "buffers",
-            "outage": "outage", "init-agv": "transport"}
+            "outage": "outage", "init-agv": "transport", "init-store": "buffers"}
     fam = next((v for k, v in need.items() if kind.startswith(k)), rnd.choice(["classic", "transport", "mixed"]))
     for attempt in range(200):
         doc, meta = gen_instance(random.Random(seed * 977 + attempt), fam)
@@ -521,7 +522,9 @@ def gen_malformed(seed, kind=None):
             continue
         if kind.startswith(("tool", "setup")) and "setup_times" not in ic:
             continue
-        if kind.startswith("buffer") and not isinstance(ic.get("buffer"), list):
+        if kind.startswith(("buffer", "init-store")) and not isinstance(ic.get("buffer"), list):
+            continue
+        if kind.startswith("init-store") and "alpha_buffer_names" in meta.get("features", []):
             continue
         if kind.startswith("outage") and "outages" not in ic:
             continue
@@ -604,6 +607,21 @@ def gen_malformed(seed, kind=None):
         doc.setdefault("init_state", {})["t-0"] = {"location": "m-99"}
     elif kind == "init-job-unknown-location":
         doc.setdefault("init_state", {})["j-0"] = {"location": "b-999"}
+    elif kind in ("init-store-foreign-job", "init-store-unknown-job"):
+        # a buffer's listed contents name a job that is located elsewhere (or does not exist): the job
+        # would start in two places (or a phantom would be stored)
+        bl = ic["buffer"]
+        init = doc.setdefault("init_state", {})
+        for k in [k for k in init if k.startswith("j-") or k in {e["name"] for e in bl}]:
+            del init[k]
+        if kind == "init-store-unknown-job":
+            init[bl[0]["name"]] = {"store": ["j-0", "j-97"]}
+        else:
+            where = bl[2]["name"] if len(bl) > 2 and rnd.random() < 0.6 else bl[1]["name"]
+            init[where] = {"store": [f"j-{rnd.randrange(meta['nj'])}"]}
+            if rnd.random() < 0.4:
+                # ... even though the job's own entry says where it is
+                init[init[where]["store"][0]] = {"location": bl[0]["name"]}
     elif kind == "no-specification":
         del inst["specification"]
     elif kind == "no-instance-config":
